@@ -101,9 +101,27 @@ mark_forced = Contract(target=T + "mark_forced", types=TT, raises={"ValueError":
                        calls=dict(TCALLS, **{"self.get_known_node_by_id": lambda ctx, a, k: ctx.local("instance")}),
                        on_exit=mark_exit("force", "forcible"))
 
+
+
+def mark_request_exit(ctx, kind, result):
+    """mark_cancelled(request): the Cancelled state belongs to the invocation of THAT request (its own instance id), not to whatever
+    invocation of the instruction happens to be the latest (an Alarm body can invoke the same command again while it is running)"""
+    if kind != "return":
+        return
+    from pyvc.smt import SVs
+    states = ctx.ghost.get("record_states", [])
+    ctx.check("exactly-one-record-state", z3.BoolVal(len(states) == 1), "postcondition")
+    if states:
+        ctx.check("the-cancelled-state-is-recorded-for-the-invocation-of-that-request",
+                  SVs(states[0][0].term) == SVs(ctx.spec("instance.instance_id").term), "postcondition")
+
+
+mark_cancelled_req = Contract(target=T + "mark_cancelled", variant="request", raises={"ValueError": None},
+                              types=dict(TT, instance="CommandRequest", **{"CommandRequest.instance_id": "str"}), calls=TCALLS,
+                              on_exit=mark_request_exit, options={"lenient": True})
 timed = [c for c in c06.CONTRACTS if c.target.endswith(".cancel")]
-CONTRACTS = node_laws + [mark_cancelled, mark_forced] + [c for c in c06.CONTRACTS if not c.target.endswith(".cancel")] + timed
-TARGETS = [c.key for c in node_laws + [mark_cancelled, mark_forced] + timed]
+CONTRACTS = node_laws + [mark_cancelled, mark_cancelled_req, mark_forced] + [c for c in c06.CONTRACTS if not c.target.endswith(".cancel")] + timed
+TARGETS = [c.key for c in node_laws + [mark_cancelled, mark_cancelled_req, mark_forced] + timed]
 LEVEL = "other"
 TRUSTED = ["Tracking lookups (record by instance, node by id, instance id creation) have no side effects; _add_record_state adds one state",
            "mark_forced: the node found by id is the node passed in", "run-state assumptions of C06 for Pause.cancel / Hold.cancel"]
@@ -115,6 +133,14 @@ EXPLANATION = "Partial claim: the cancel/force mechanism at node and tracking le
 
 def replay(obligation, witness):
     """Native oracle: node-level laws on real WatchNode / AlarmNode objects in every flag combination; command items on the real engine."""
+    if "instruction-item-that-already-completed" in obligation or "command-instruction-that-has-not-started" in obligation:
+        import contracts.c15_native as n15
+        r = n15.force_of_a_completed_wait() if "Forced" in obligation else n15.cancel_of_a_command_awaiting_its_threshold()
+        return {"confirmed": bool(r["violated"]), **r}
+    if "the-cancelled-state-is-recorded-for-the-invocation" in obligation:
+        import contracts.c15_native as n15
+        r = n15.alarm_refiring_over_a_long_running_command()
+        return {"confirmed": bool(r["violated"]), **r}
     if "CommandManager." in obligation:
         import contracts.c12_native as n
         r = n.request_for_a_completed_command_item("force" if "force_instruction" in obligation else "cancel")
@@ -179,6 +205,17 @@ def get_command(ctx, args, kwargs):
 def effect(label):
     def h(ctx, args, kwargs):
         ctx.check_w(f"a-command-item-that-already-ended-is-left-alone[{label}]", _z3.Not(_ended(ctx)), lambda m: {"effect": label}, "call-site")
+        if ctx.ghost.get("cmd") is None and ctx.local("node") is not None and label.startswith("tracking state"):
+            # plain instruction item (no command object): the run log offers it neither as cancellable nor as forcible once it carries a
+            # conclusive state, and does not list a command instruction that is still waiting for its threshold at all
+            ctx.check_w(f"an-instruction-item-that-already-completed-is-left-alone[{label}]", _z3.Not(ctx.spec_bool("node.completed")),
+                        lambda m: {"effect": label, "node": "completed"}, "call-site")
+            if "Cancelled" in label:
+                # forcing a waiting threshold is a legitimate request; CANCELLING a command instruction that has no command object yet
+                # cannot take effect (the interpreter starts it regardless), so it must be refused
+                ctx.check_w(f"a-command-instruction-that-has-not-started-is-left-alone[{label}]",
+                            _z3.Not(ctx.spec_bool("is_instance(node, 'CommandBaseNode')")),
+                            lambda m: {"effect": label, "node": "command instruction without a command object (awaiting its threshold)"}, "call-site")
         return ctx.fresh("opaque", None)
     h.modifies = []
     h.__doc__ = f"{label}: an effect of accepting the request (recorded; must not happen for an item that is no longer offered)"
@@ -196,7 +233,8 @@ def truth(ctx, args, kwargs):
 for _h in (get_command, truth):
     _h.modifies = []
 GT_TYPES = {"self": "CommandManager", "instance_id": "str", "EngineCommand._exec_complete": "bool", "EngineCommand._cancelled": "bool",
-            "EngineCommand._finalized": "bool", "CommandManager.in_executing_loop": "bool", "command": "EngineCommand"}
+            "EngineCommand._finalized": "bool", "CommandManager.in_executing_loop": "bool", "command": "EngineCommand", "node": "Node",
+            "Node.completed": "bool"}
 GCALLS = {"self.tracking.has_instance_id": truth, "self.tracking.get_command": get_command, "self.tracking.get_record_by_instance_id": opaque("record", "RuntimeRecord"),
           "self.tracking.get_known_node_by_id": opaque("node", "Node"), "self._get_executing_command_request": opaque("request", "CommandRequest | None"),
           "self._cancel_command": effect("cancel the executing request"), "command.cancel": effect("command.cancel()"),
